@@ -128,8 +128,7 @@ theorem tm_neg {l l' k s : Nat} (h : ¬ isPred a d j l l' = true) : tm n a w d j
 /-- **first-link decomposition** of the number of shortest paths through `l`:
 `σ_js(l) = [s = l] σ_jl + Σ_{l' successor of l} σ_jl · (w_l'/σ_jl') · σ_js(l')` -/
 theorem thru_first_link
-    (hpos : ∀ x k, x < n → d j x = some k → sigLev n a w d j k x ≠ 0)
-    (hd0 : ∀ l, l < n → d j l = some 0 → l = j) {l : Nat} (hl : l < n) :
+    (hpos : ∀ x k, x < n → d j x = some k → sigLev n a w d j k x ≠ 0) {l : Nat} (hl : l < n) :
     ∀ ks s, s < n → d j s = some ks →
       sigThruLev n a w d j l ks s = (if s = l then sigLev n a w d j ks l else 0)
         + sumToQ n (fun l' => tm n a w d j l l' ks s) := by
@@ -239,6 +238,161 @@ theorem thru_first_link
       · simp only [if_pos hp]; ring
       · simp only [if_neg hp]; ring
 
+/-- the pair-dependency term of source `s` for node `l` (the term `s = l` included) -/
+def gB (n : Nat) (a : Adj) (w : Nat → Rat) (d : DistFn) (isSrc : List Bool) (j l s : Nat) : Rat :=
+  if (d j s).isSome then excess w isSrc s * (sigmaThru n a w d j l s / sigma n a w d j s) else 0
+
+def bB (n : Nat) (a : Adj) (w : Nat → Rat) (d : DistFn) (isSrc : List Bool) (j l : Nat) : Rat :=
+  sumToQ n (gB n a w d isSrc j l)
+
+variable {isSrc : List Bool}
+
+theorem gB_self (hpos : ∀ x k, x < n → d j x = some k → sigLev n a w d j k x ≠ 0) {l kl : Nat}
+    (hl : l < n) (hdl : d j l = some kl) : gB n a w d isSrc j l l = excess w isSrc l := by
+  unfold gB sigmaThru sigma
+  rw [hdl]
+  have : sigThruLev n a w d j l kl l = sigLev n a w d j kl l := by
+    cases kl <;> simp [sigThruLev]
+  have hp := hpos l kl hl hdl
+  simp only [Option.isSome_some, if_true, this]
+  field_simp
+
+/-- `bB l = e(l) + contribDef l` for reachable `l ≠ j` -/
+theorem bB_eq_contrib (hpos : ∀ x k, x < n → d j x = some k → sigLev n a w d j k x ≠ 0) {l kl : Nat}
+    (hl : l < n) (hlj : l ≠ j) (hdl : d j l = some kl) :
+    bB n a w d isSrc j l = excess w isSrc l + contribDef n a w d isSrc j l := by
+  unfold contribDef bB
+  rw [if_neg hlj]
+  have : ∀ s, s < n → gB n a w d isSrc j l s
+      = (if s = l then excess w isSrc s else 0)
+        + (if s != l && (d j s).isSome then excess w isSrc s * pairDep n a w d j l s else 0) := by
+    intro s _
+    by_cases e : s = l
+    · subst e; rw [gB_self hpos hl hdl]; simp
+    · unfold gB pairDep
+      simp [e]
+  rw [sumToQ_congrLt n _ _ this, sumToQ_add', sumToQ_single n l hl]
+
+/-- the accumulation step applied to `bB` gives `bB` -/
+theorem bB_step (hpos : ∀ x k, x < n → d j x = some k → sigLev n a w d j k x ≠ 0) {l kl : Nat}
+    (hl : l < n) (hdl : d j l = some kl) :
+    sumToQ n (fun l' => if isPred a d j l l' then
+        bB n a w d isSrc j l' * (w l' / sigma n a w d j l') * sigma n a w d j l else 0)
+      = bB n a w d isSrc j l - excess w isSrc l := by
+  -- per source `s`
+  have hK : ∀ s, s < n → sumToQ n (fun l' => if isPred a d j l l' then
+        gB n a w d isSrc j l' s * ((w l' / sigma n a w d j l') * sigma n a w d j l) else 0)
+      = gB n a w d isSrc j l s + (if s = l then - excess w isSrc s else 0) := by
+    intro s hs
+    cases hds : d j s with
+    | none =>
+      have hne : s ≠ l := by intro e; rw [e, hdl] at hds; simp at hds
+      rw [sumToQ_zero_of]
+      · simp [gB, hds, hne]
+      · intro l' _; simp [gB, hds]
+    | some ks =>
+      have hG : ∀ x, gB n a w d isSrc j x s
+          = excess w isSrc s * (sigThruLev n a w d j x ks s / sigma n a w d j s) := by
+        intro x; simp [gB, sigmaThru, hds]
+      have h1 : sumToQ n (fun l' => if isPred a d j l l' then
+            gB n a w d isSrc j l' s * ((w l' / sigma n a w d j l') * sigma n a w d j l) else 0)
+          = (excess w isSrc s / sigma n a w d j s) * sumToQ n (fun l' => tm n a w d j l l' ks s) := by
+        rw [← sumToQ_mul_left']
+        apply sumToQ_congrLt
+        intro l' _
+        unfold tm
+        by_cases hp : isPred a d j l l' = true
+        · simp only [if_pos hp, hG]; ring
+        · simp only [if_neg hp]; ring
+      have h2 := thru_first_link hpos hl ks s hs hds
+      have h3 : sumToQ n (fun l' => tm n a w d j l l' ks s)
+          = sigThruLev n a w d j l ks s - (if s = l then sigLev n a w d j ks l else 0) := by
+        rw [h2]; ring
+      rw [h1, h3, hG]
+      by_cases e : s = l
+      · subst e
+        have hsg : sigma n a w d j s = sigLev n a w d j ks s := by unfold sigma; rw [hds]
+        have := hpos s ks hs hds
+        simp only [if_true]
+        rw [hsg]
+        field_simp
+        ring
+      · simp only [if_neg e]; ring
+  have hL : ∀ l', l' < n → (if isPred a d j l l' then
+        bB n a w d isSrc j l' * (w l' / sigma n a w d j l') * sigma n a w d j l else 0)
+      = sumToQ n (fun s => if isPred a d j l l' then
+        gB n a w d isSrc j l' s * ((w l' / sigma n a w d j l') * sigma n a w d j l) else 0) := by
+    intro l' _
+    by_cases hp : isPred a d j l l' = true
+    · simp only [if_pos hp]
+      unfold bB
+      rw [sumToQ_mul_right']; ring
+    · simp only [if_neg hp]; rw [sumToQ_const_zero]
+  rw [sumToQ_congrLt n _ _ hL, sumToQ_comm', sumToQ_congrLt n _ _ hK, sumToQ_add',
+    sumToQ_single n l hl]
+  unfold bB
+  ring
+
 end
+
+/-- **Brandes' accumulation has the pair-dependency sum as its only solution**: every `β` satisfying
+`BrandesSol` for target `j` differs from the excess by the definition's inner sum
+`Σ_{s source, s ≠ l} w_s σ_js(l)/σ_js` — for every graph, positive node weights, every source mask. -/
+theorem brandesSol_eq_contribDef (n : Nat) (a : Adj) (w : Nat → Rat) (isSrc : List Bool) (j : Nat)
+    (hj : j < n) (hw : ∀ v, v < n → 0 < w v)
+    (hDj : dist n a j j = some 0)
+    (hd0 : ∀ l, l < n → dist n a j l = some 0 → l = j)
+    (hdS : ∀ l k, l < n → dist n a j l = some (k + 1) →
+      ∃ i, i < n ∧ a i l = true ∧ dist n a j i = some k)
+    (hdlt : ∀ l k, l < n → dist n a j l = some k → k < n)
+    (β : Nat → Rat) (hβ : BrandesSol n a w isSrc j β) :
+    ∀ l, l < n → l ≠ j → β l - excess w isSrc l = contribDef n a w (dist n a) isSrc j l := by
+  have hpos : ∀ x k, x < n → dist n a j x = some k → sigLev n a w (dist n a) j k x ≠ 0 :=
+    fun x k hx hd => ne_of_gt (sigLev_pos hw hd0 hdS hj k x hx hd)
+  -- reachable nodes, by downward induction over the level
+  have hreach : ∀ m l kl, l < n → l ≠ j → dist n a j l = some kl → n ≤ kl + m →
+      β l = bB n a w (dist n a) isSrc j l := by
+    intro m
+    induction m with
+    | zero => intro l kl hl _ hdl hn; have := hdlt l kl hl hdl; omega
+    | succ m ih =>
+      intro l kl hl hlj hdl hn
+      rw [hβ.step l hl hlj (by rw [hdl]; rfl)]
+      have : ∀ l', l' < n → (if isPred a (dist n a) j l l' then
+            β l' * (w l' / sigma n a w (dist n a) j l') * sigma n a w (dist n a) j l else 0)
+          = (if isPred a (dist n a) j l l' then
+            bB n a w (dist n a) isSrc j l' * (w l' / sigma n a w (dist n a) j l')
+              * sigma n a w (dist n a) j l else 0) := by
+        intro l' hl'
+        by_cases hp : isPred a (dist n a) j l l' = true
+        · obtain ⟨_, x, hx, hy⟩ := isPred_some hp
+          have hxk : x = kl := by rw [hdl] at hx; injection hx with e; omega
+          subst hxk
+          have hne : l' ≠ j := by intro e; rw [e, hDj] at hy; injection hy with e'; omega
+          simp only [if_pos hp]
+          rw [ih l' (x + 1) hl' hne hy (by omega)]
+        · simp only [if_neg hp]
+      rw [sumToQ_congrLt n _ _ this, bB_step hpos hl hdl]
+      ring
+  intro l hl hlj
+  cases hdl : dist n a j l with
+  | none =>
+    rw [hβ.unreach l hl hdl, sub_self]
+    unfold contribDef
+    rw [if_neg hlj, sumToQ_zero_of]
+    intro s _
+    by_cases hc : (s != l && (dist n a j s).isSome) = true
+    · rw [if_pos hc]
+      simp only [Bool.and_eq_true, bne_iff_ne, ne_eq] at hc
+      obtain ⟨ks, hks⟩ := Option.isSome_iff_exists.mp hc.2
+      unfold pairDep sigmaThru
+      rw [hks]
+      simp only []
+      rw [sigThru_vanish l ks s hc.1 (by intro kv hv; rw [hdl] at hv; simp at hv)]
+      simp
+    · rw [if_neg hc]
+  | some kl =>
+    rw [hreach (n - kl) l kl hl hlj hdl (by omega), bB_eq_contrib hpos hl hlj hdl]
+    ring
 
 end Pyunicorn.NetBetw
